@@ -199,7 +199,7 @@ func TestReplay(t *testing.T) {
 	if err != nil {
 		t.Fatalf("cannot load %s: %v", p, err)
 	}
-	if strings.HasPrefix(env.Test, "TestC01Stress") || strings.HasPrefix(env.Test, "TestC04Redis") || strings.HasPrefix(env.Test, "TestC01LongWaiter") || strings.HasPrefix(env.Test, "TestC05") {
+	if strings.HasPrefix(env.Test, "TestC01Stress") || strings.HasPrefix(env.Test, "TestC04Redis") || strings.HasPrefix(env.Test, "TestC04SharedFail") || strings.HasPrefix(env.Test, "TestC01LongWaiter") || strings.HasPrefix(env.Test, "TestC05") {
 		replayOther(t, env, p)
 		return
 	}
